@@ -110,7 +110,7 @@ CATALOG = [
     ("S", lambda r: ["label", r.choice(["p,q", "p,q,r", "u"])]),
     ("S", lambda r: ["regularize"]),
     ("S", lambda r: ["sort-within-records"]),
-    ("S", lambda r: ["sort-within-records", "-r"]),
+    ("S", lambda r: ["sort-within-records", "-r", "^[abx]"]),
     ("S", lambda r: ["fill-empty"]),
     ("S", lambda r: ["fill-empty", "-v", "X"]),
     ("S", lambda r: ["fill-down", "-f", _fields(r, 1)]),
